@@ -88,3 +88,42 @@ func H_C02_adjust2() { rhAdjustRun(instance(), []int{2, 2}, 2) }
 //verif:tier thorough
 //verif:expect-cover conflict-free
 func H_C02_adjust3() { rhAdjustRun(instance(), []int{1, 2, 1}, 2) }
+
+// H_C01_update2: two plugins update arbitrary targets with the same resource family;
+// instance = request kind (3) x resource family (20).
+//verif:property C01
+//verif:instances 60
+//verif:expect-cover collision
+func H_C01_update2() {
+	k, f := instance()/20, resFams[instance()%20]
+	rhUpdateRun(k, []int{f, f}, []int{1, 2}, 1, 1)
+}
+
+// H_C01_update3: three plugins, same family, all request kinds.
+//verif:property C01
+//verif:instances 60
+//verif:tier thorough
+//verif:expect-cover collision
+func H_C01_update3() {
+	k, f := instance()/20, resFams[instance()%20]
+	rhUpdateRun(k, []int{f, f, f}, []int{1, 2, 1}, 2, 1)
+}
+
+// H_C02_update2: two plugins update arbitrary targets with families f and f+1 (different fields never
+// conflict) against a fully pre-populated runtime request; instance = kind x family.
+//verif:property C02
+//verif:instances 60
+//verif:expect-cover conflict-free
+func H_C02_update2() {
+	k, i := instance()/20, instance()%20
+	rhUpdateRun(k, []int{resFams[i], resFams[(i+1)%20]}, []int{2, 2}, 2, 2)
+}
+
+// H_C02_update2same: two plugins, same family, disjoint keys/targets must not conflict.
+//verif:property C02
+//verif:instances 60
+//verif:expect-cover conflict-free
+func H_C02_update2same() {
+	k, f := instance()/20, resFams[instance()%20]
+	rhUpdateRun(k, []int{f, f}, []int{2, 2}, 2, 2)
+}
